@@ -780,12 +780,22 @@ class H2Connection:
                 )
 
         self.state_machine.process_input(ConnectionInputs.SEND_HEADERS)
+        new_stream = stream_id not in self.streams
+        highest_outbound_stream_id = self.highest_outbound_stream_id
         stream = self._get_or_create_stream(
             stream_id, AllowedStreamIDs(self.config.client_side)
         )
-        frames = stream.send_headers(
-            headers, self.encoder, end_stream
-        )
+        try:
+            frames = stream.send_headers(
+                headers, self.encoder, end_stream
+            )
+        except ProtocolError:
+            if new_stream:
+                # Nothing was sent, so the stream was never opened: forget it
+                # and give the stream ID back.
+                del self.streams[stream_id]
+                self.highest_outbound_stream_id = highest_outbound_stream_id
+            raise
 
         # We may need to send priority information.
         if priority_present:
@@ -978,14 +988,22 @@ class H2Connection:
         if (stream_id % 2) == 0:
             raise ProtocolError("Cannot recursively push streams.")
 
+        highest_outbound_stream_id = self.highest_outbound_stream_id
         new_stream = self._begin_new_stream(
             promised_stream_id, AllowedStreamIDs.EVEN
         )
         self.streams[promised_stream_id] = new_stream
 
-        frames = stream.push_stream_in_band(
-            promised_stream_id, request_headers, self.encoder
-        )
+        try:
+            frames = stream.push_stream_in_band(
+                promised_stream_id, request_headers, self.encoder
+            )
+        except ProtocolError:
+            # Nothing was sent, so nothing was promised: forget the new stream
+            # and give the stream ID back.
+            del self.streams[promised_stream_id]
+            self.highest_outbound_stream_id = highest_outbound_stream_id
+            raise
         new_frames = new_stream.locally_pushed()
         self._prepare_for_sending(frames + new_frames)
 
